@@ -244,7 +244,19 @@ def run_zoo(ck, L, idx, rng, recs):
             ck.violation("e2e-linkage-class", "entity %s (%s) is %s in the model, symbol class %s"
                          % (lab, n, lk, ", ".join("%s:%s" % kv for kv in sorted(wrong.items()))),
                          dict(replay, entity=lab, name=n, model=lk, nm=where))
-    # (2) no two entities of the program share a name
+    # (1b) type descriptors of a type declared inside a generic function: one symbol per instantiation
+    ld = params.get("local_descriptors")
+    if ld:
+        rx = re.compile(ld["regex"])
+        found = sorted(set(m.group(1) for m in (rx.match(n) for n in defined) if m))
+        res["local_descriptors"] = found
+        lost = [w for w in ld["want"] if w not in found]
+        if lost:
+            ck.violation("e2e-typearg-same-pkgname-merged",
+                         "the local type box of the generic function Box has %d instantiations %s, the binary has descriptor symbols for %s only"
+                         % (len(ld["want"]), ld["want"], found),
+                         dict(replay, want=ld["want"], found=found,
+                              symbols=[n for n in defined if ".box[" in n][:20]))
     by = collections.defaultdict(list)
     for (lab, _, kind), n in zip(ents, names):
         by[n].append((lab, kind))
@@ -355,6 +367,36 @@ def classify_collisions(ck, fns, classes):
                              {"name": name, "a": a, "b": b2})
 
 
+def classify_targs(ck, recs, classes):
+    """property oracle on the real abi.TypeArgs / NamedName: different type-argument lists, one text"""
+    for kind in ("targs", "named"):
+        by = collections.defaultdict(dict)
+        for r in recs[kind]:
+            by[(r.get("name", ""), r["text"])].setdefault(r["targs"], r)
+        for (_, text), ts in by.items():
+            if len(ts) < 2:
+                continue
+            rs = list(ts.values())
+            for i in range(1, len(rs)):
+                a, b2 = rs[0], rs[i]
+                both = a["targs"] + b2["targs"]
+                if ";".join(str(x) for x in PATCH.encode()) in both:
+                    classes["collision:exception:patch-prefix-merge(targs)"] += 1
+                    continue
+                ca, cb = a.get("class", ""), b2.get("class", "")
+                key = "typeargs-collision"
+                if ca.startswith("pair:samename") and cb.startswith("pair:samename"):
+                    key = "typearg-same-pkgname-collision"
+                elif ca.startswith("pair:local") and cb.startswith("pair:local"):
+                    key = "typearg-local-scope-collision"
+                elif ca.startswith("pair:twopkg") and cb.startswith("pair:twopkg"):
+                    key = "typearg-two-packages-collision"
+                classes["collision:" + key] += 1
+                ck.violation(key, "abi.%s renders two different type-argument lists as %r (%s / %s)"
+                             % ("TypeArgs" if kind == "targs" else "NamedName", text, ca or "random", cb or "random"),
+                             {"text": text, "a": a, "b": b2})
+
+
 def run(ck):
     ck.trusted = ["Coq 8.16.1 kernel (coqc, vm_compute)",
                   "Go overlay harness props/C14/harness/names_verif_test.go.tmpl (+ssa_only.go.frag): go/types construction of generated packages, receivers, type arguments",
@@ -411,6 +453,14 @@ def run(ck):
         for r in recs[k]:
             classes[k + ":" + r.get("class", "")] += 1
     classify_collisions(ck, fn, classes)
+    classify_targs(ck, recs, classes)
+    for v in recs["viol"]:
+        ck.violation(v["key"], v.get("what", ""), v)
+    for r in recs["sigstat"]:
+        classes["sig:types-named"] += r["types"]
+        classes["sig:distinct-names"] += r["names"]
+        classes["sig:collisions"] += r["collisions"]
+        total += r["types"]
     for z in recs["zoo"]:
         classes["e2e:entities-checked-in-nm"] += z.get("symbols_checked", 0)
         classes["e2e:sections"] += z.get("sections", 0)
@@ -434,5 +484,6 @@ def run(ck):
                       "model names pairwise distinct; the generic type G[int] / H[int,T] is put behind interfaces, taken as method value and as method expression in three packages, and the per-package "
                       "objects (archives of llgo's private build cache, llvm-nm each) are compared: a name defined by more than one package object must be weak in all of them, every entity is weak "
                       "exactly when the model's linkage_of says LinkOnce (binary and every object), and a link failure with multiple definition is a violation of its own; "
+                      "boundary pairs of type arguments that must stay apart (two packages with one package NAME x/a/model - x/b/model, two local types with one name, one type name in two packages; bare and inside pointer/slice/array/map/chan/generic shapes) for abi.TypeArgs/NamedName and ssa.FuncName (functions, closures, generic receivers): different lists, one text is a violation; 900 signature-derived types (func types differing only in the variadic flag, bare and nested in map/slice/pointer/chan/struct/interface/param/result) through the real abi.Builder.TypeName/FuncName: not types.Identical and one name (descriptor _llgo_func$hash, closure stub __llgo_stub._llgo_func$hash) is a violation; the zoo program instantiates Box (generic function with a local type), Size and G with <a>/model.Item and <b>/model.Item from two packages, compares behaviour (assertions, ==, sizes) and counts the descriptor symbols of the local type per instantiation, and asserts func(...int) int against func([]int) int; "
                       "plus the F10 program (package path with a dotted last element). distinct = distinct real names")
     return ck.finish()
